@@ -31,6 +31,11 @@ EXTRA = [
     'from pkga import alpha, thing\nfrom pkga.inner import other\nfrom pkga.deep import leaf\nleaf.leafval\n',
     'from . import sibling\nfrom .sibling import svalue\nsibling.svalue\n',
     'import os.path\nos.path.join\nx = "text"\nx.upper\n',
+    'def gen(src):\n    inner = gen\n    yield from inner\n    try:\n        value = yield from src.items\n    except Exception as err:\n'
+    '        raise ValueError(inner) from err\n    return value\n',
+    'class Sh:\n    bar = 1\n    def m(self):\n        self.bar = 2\n        self.baz = self.bar\n    def n(self):\n        self.bar = 3\n'
+    '        self.baz = 4\n',
+    'text = "from here"; other = text\nmsg = "x from y" + other\n',
 ]
 
 
@@ -41,7 +46,7 @@ def build_cases():
             continue
         if len(sh.slots) > 7:
             continue
-        parts = [p for p in family.partitions(sh.slots) if tharness.compiles(sh, p, [])]
+        parts = [p for p in family.var_partitions(sh, 60) if tharness.compiles(sh, p, [])]
         for part in (parts[0], parts[-1]) if len(parts) > 1 else parts:
             naming = {s: 'n%s%s' % (chr(97 + part[s]), chr(97 + part[s])) for s in sh.slots}
             cases.append(family.render(sh, naming))
@@ -54,7 +59,7 @@ def targets(text):
     for n in ast.walk(tree):
         if isinstance(n, ast.Name) and isinstance(n.ctx, ast.Load):
             out.append(('name', n.lineno, n.col_offset, n.id))
-        elif isinstance(n, ast.Attribute) and isinstance(n.ctx, ast.Load) and n.end_lineno == n.lineno:
+        elif isinstance(n, ast.Attribute) and isinstance(n.ctx, (ast.Load, ast.Store)) and n.end_lineno == n.lineno:
             out.append(('attr', n.end_lineno, n.end_col_offset - len(n.attr), n.attr))
         elif isinstance(n, ast.alias) and n.name != '*' and n.end_lineno == n.lineno:
             last = n.name.rpartition('.')[2]
